@@ -300,6 +300,41 @@ theorem treeEnsembleClassifier_sound_partial (classIds labelsStr labelsInt : Opt
       simp [inferTreeEnsembleClassifier, ranked] at hi; subst hi
       simp [conformsAll, conforms, tensor, dimsOk, hz, hs.1]
 
+/-- Whatever `class_ids` is, the label output `Y` is reported soundly (only `Z`'s second axis is
+    affected by the defect). -/
+theorem treeEnsembleClassifier_Y_sound (classIds labelsStr labelsInt : Option Nat) (x : ITy)
+    (v : RtVal) (outs : List ITy) (w : List RtVal)
+    (hi : inferTreeEnsembleClassifier classIds labelsStr labelsInt x = .ok outs)
+    (hc : conforms v x = true) (hr : rtTreeEnsembleClassifier labelsStr labelsInt v = some w) :
+    ∃ y z ty tz, w = [y, z] ∧ outs = [ty, tz] ∧ conforms y ty = true := by
+  obtain ⟨ve, vs⟩ := v
+  rcases vs with _ | ⟨n, _ | ⟨c, _ | ⟨c', q⟩⟩⟩ <;> simp [rtTreeEnsembleClassifier] at hr
+  rcases labelsStr with _ | ks
+  · rcases labelsInt with _ | ki
+    · simp at hr
+    · simp only [Option.some.injEq] at hr; subst hr
+      rcases x with _ | ⟨e, _ | ds⟩
+      · simp [inferTreeEnsembleClassifier, ranked] at hi; subst hi
+        exact ⟨_, _, _, _, rfl, rfl, by simp [conforms, tensor, dimsOk]⟩
+      · simp [inferTreeEnsembleClassifier, ranked] at hi; subst hi
+        exact ⟨_, _, _, _, rfl, rfl, by simp [conforms, tensor, dimsOk]⟩
+      · simp only [conforms, Bool.and_eq_true] at hc
+        have hs := hc.2
+        rcases ds with _ | ⟨d0, _ | ⟨d1, _ | ⟨d2, r⟩⟩⟩ <;> simp [dimsOk] at hs
+        simp [inferTreeEnsembleClassifier, ranked] at hi; subst hi
+        exact ⟨_, _, _, _, rfl, rfl, by simp [conforms, tensor, dimsOk, hs.1]⟩
+  · simp only [Option.some.injEq] at hr; subst hr
+    rcases x with _ | ⟨e, _ | ds⟩
+    · simp [inferTreeEnsembleClassifier, ranked] at hi; subst hi
+      exact ⟨_, _, _, _, rfl, rfl, by simp [conforms, tensor, dimsOk]⟩
+    · simp [inferTreeEnsembleClassifier, ranked] at hi; subst hi
+      exact ⟨_, _, _, _, rfl, rfl, by simp [conforms, tensor, dimsOk]⟩
+    · simp only [conforms, Bool.and_eq_true] at hc
+      have hs := hc.2
+      rcases ds with _ | ⟨d0, _ | ⟨d1, _ | ⟨d2, r⟩⟩⟩ <;> simp [dimsOk] at hs
+      simp [inferTreeEnsembleClassifier, ranked] at hi; subst hi
+      exact ⟨_, _, _, _, rfl, rfl, by simp [conforms, tensor, dimsOk, hs.1]⟩
+
 /-- `len(class_ids) = 3` with two class labels: `Z` is reported `f32[4][3]`, the runtime value has
     shape `(4,2)` (pinned by tests/type_inference/test_tree_ensemble_classifier.py). -/
 theorem treeEnsembleClassifier_counterexample :
@@ -475,6 +510,43 @@ theorem loop_scan_sound (v : RtVal) (vs : List RtVal) (t : Ty) (w : RtVal)
     · simp [scanTy]
     · simpa [scanTy, dimsOk] using hc.2
   · simp at hs
+
+/-- Scan outputs of a loop that runs at least once (`stackScan … = some w` forces that): scan output
+    `j` conforms to the reported type "one leading unknown dim, then the body's declared type for that
+    result" — for every body that is sound for its first iteration's inputs, whether or not later
+    iterations respect the declared argument types (all slices must have the first slice's shape). -/
+theorem loop_scan_output_sound (a s : List Ty) (body : Body) (M : Nat) (c0 : Bool)
+    (v0 fin : List RtVal) (scs : List (List RtVal)) (j : Nat) (t : Ty) (w : RtVal)
+    (hinit : conformsAll v0 (a.map some) = true)
+    (hbody : ∀ i vs c vs' sc, conformsAll vs (a.map some) = true → body i vs = some (c, vs', sc) →
+        conformsAll sc (s.map some) = true)
+    (hrun : loopRun body M 0 c0 v0 = some (fin, scs)) (hj : s[j]? = some t)
+    (hs : stackScan (column scs j) = some w) : conforms w (some (scanTy t)) = true := by
+  cases M with
+  | zero =>
+    simp only [loopRun, Option.some.injEq, Prod.mk.injEq] at hrun
+    rw [← hrun.2] at hs; simp [column, stackScan] at hs
+  | succ m =>
+    cases c0 with
+    | false =>
+      simp only [loopRun, Option.some.injEq, Prod.mk.injEq] at hrun
+      rw [← hrun.2] at hs; simp [column, stackScan] at hs
+    | true =>
+      simp only [loopRun] at hrun
+      split at hrun
+      · simp at hrun
+      · rename_i c vs' sc hb
+        split at hrun
+        · simp at hrun
+        · rename_i fin' scs' _
+          simp only [Option.some.injEq, Prod.mk.injEq] at hrun
+          have hsc := hbody 0 v0 c vs' sc hinit hb
+          obtain ⟨v, hv, hc⟩ := conformsAll_get sc s j t hsc hj
+          rw [← hrun.2] at hs
+          have hcol : column (sc :: scs') j = v :: column scs' j := by
+            simp [column, List.filterMap_cons, hv]
+          rw [hcol] at hs
+          exact loop_scan_sound v (column scs' j) t w hc hs
 
 /-! ## Non-vacuity: the hypotheses of the theorems are satisfiable and the conclusions say something -/
 
